@@ -54,6 +54,16 @@ def body(out):
     return {k: out[k] for k in ("dims", "shape", "flat", "name", "coords", "v", "W", "lin", "newdim", "received", "results", "returned") if k in out}
 
 
+def c10_competing(rng, cid):
+    """three requested axes and a registry with at least two two-axis blocks: several partitions compete, and which one
+    wins may depend on nothing but the registry and the order of the request - not on how the axes are called"""
+    for _ in range(300):
+        c = c10.gen_getmetric(rng, cid)
+        if len(c["axes"]) == 3 and sum(1 for e in c["reg"] if len(e["key"]) == 2) >= 2:
+            return c
+    return c
+
+
 def run_pair(job):
     """job = (family, case, names) -> (renamed record, pair record)"""
     fam, case, names = job
@@ -101,7 +111,8 @@ FAMILIES = {
     "c09": {"spec": "C09Trace", "gen": lambda rng, cid: rng.choice([lambda: c01.gen_case(rng, cid, ops=["cumsum"]), lambda: c09.gen_inverse(rng, cid),
                                                                    lambda: c09.gen_cumint(rng, cid)])(), "execute": c09.execute},
     "c02": {"spec": "C02Trace", "gen": lambda rng, cid: c02.gen_pad(rng, cid), "execute": c02.execute},
-    "c10": {"spec": "C10Trace", "gen": lambda rng, cid: rng.choice([lambda: c10.gen_getmetric(rng, cid), lambda: c10.gen_op(rng, cid, rng.choice(["Integrate", "Average", "Derivative", "Weighted"]))])(),
+    "c10": {"spec": "C10Trace", "gen": lambda rng, cid: rng.choice([lambda: c10.gen_getmetric(rng, cid), lambda: c10_competing(rng, cid),
+                                                                    lambda: c10.gen_op(rng, cid, rng.choice(["Integrate", "Average", "Derivative", "Weighted"]))])(),
             "execute": c10.execute},
     "c11": {"spec": "C11Trace", "gen": lambda rng, cid: c11.gen_case(rng, cid), "execute": c11.execute},
     "c05": {"spec": "C05Trace", "gen": lambda rng, cid: c05.gen_case(rng, cid), "execute": c05.execute},
@@ -115,7 +126,8 @@ C08_TOKENS = ["zc", "zl", "col", "phi", "theta", "lev", "Z"]
 def gen_jobs(rng, per_family):
     jobs, cid = [], 0
     for fam, f in FAMILIES.items():
-        for _ in range(per_family):
+        # the families in which names take part in decisions (metric partitions, signatures, face tables) get more pairs
+        for _ in range(per_family * (2 if fam in ("c10", "c11", "c05") else 1)):
             cid += 1
             case = f["gen"](rng, cid)
             if fam == "c08":
